@@ -6,8 +6,11 @@ import ValidaProofs.Lemmas.Basic
 import ValidaProofs.C02
 import ValidaProofs.C03
 import ValidaProofs.C05
+import ValidaProofs.Lemmas.C07Total
+import ValidaProofs.Lemmas.C07Rule
 namespace ValidaProofs
 open Valida ValidaGen
+open C07L
 
 /-- a rule of the property's domain: modifier-free path without bound source data, value-kind
     condition tree whose arguments are literals -/
@@ -23,35 +26,36 @@ structure RuleOK (r : RuleM) : Prop where
 theorem C07_walk_total (parts : List Part) (data : List PyVal) (paths : List (List PyVal)) (first : Bool)
     (hlen : first = true ∨ data.length = paths.length) :
     ∀ e, walkParts parts first data paths = .error e → e = .unmodelled := by
-  sorry
+  exact walkParts_err parts first data paths hlen
 
 /-- selecting the nodes of a rule's path never raises because of the document -/
 theorem C07_selection_total (p : Path) (doc : PyVal) (hd : p.datum = .none) (hm : p.multi = .none)
     (hs : p.source = none) (hdoc : PyVal.truthy doc = true) :
     ∀ e, selection p doc = .error e → e = .unmodelled := by
-  sorry
+  exact selection_err p doc hd hm hs hdoc
 
 /-- what `selection` returns is a non-empty list of `(value, path)` pairs -/
 theorem C07_selection_shape (p : Path) (doc : PyVal) (hd : p.datum = .none) (hm : p.multi = .none)
     (hs : p.source = none) (sub : List PyVal) (h : selection p doc = .ok (some sub)) :
     sub ≠ [] ∧ ∀ x ∈ sub, ∃ v q, x = PyVal.tuple [v, PyVal.tuple q] := by
-  sorry
+  exact selection_shape p doc hd hm hs sub h
 
 /-- testing one cast-free rule of the domain on any non-empty document returns a rule test -/
 theorem C07_rule_total (r : RuleM) (doc : PyVal) (d : DataV) (hr : RuleOK r) (hdoc : DataV.ofPy doc = .ok d) :
     ∀ e, ruleTestOn r doc = .error e → e = .unmodelled := by
-  sorry
+  exact ruleTestOn_err r doc d hr.datum hr.multi hr.source hr.lits hr.valueKind hdoc
 
 /-- a declared cast that cannot convert a string does not raise: the `except` tuple of `Rule.test`
     (read from the source) catches what `int()` and `cast_string_to_bool` raise -/
 theorem C07_cast_total (casts : List (PyType × String)) (v : PyVal) :
     ∀ e, castNode casts v = .error e → e = .unmodelled := by
-  sorry
+  exact castNode_err casts v
 
 /-- validating any non-empty document against a cast-free schema of the domain returns a result -/
 theorem C07_validate_total_castfree (rs : List RuleM) (doc : PyVal) (d : DataV)
     (hr : ∀ r ∈ rs, RuleOK r ∧ r.cast = []) (hdoc : DataV.ofPy doc = .ok d) :
     ∀ e, validate rs doc = .error e → e = .unmodelled := by
-  sorry
+  exact validate_err rs doc d hdoc (fun r h => (hr r h).2)
+    (fun r h => C07_rule_total r doc d (hr r h).1 hdoc)
 
 end ValidaProofs
